@@ -242,7 +242,9 @@ func (vc *VC) closedEntryHeap(cs []comp) {
 		for _, pr := range vc.privateEntry {
 			body = append(body, sNot(sEq(t, pr)))
 		}
-		vc.decls = append(vc.decls, fmt.Sprintf("(assert (forall ((r! Int) (o! (_ BitVec 64))) (! %s :pattern (%s))))", sAnd(body...), t))
+		// only cells of objects that exist at entry: the entry heap's cells above the allocation counter are the
+		// (unconstrained) initial contents of objects allocated later, e.g. by a callee that returns a pointer to them
+		vc.decls = append(vc.decls, fmt.Sprintf("(assert (forall ((r! Int) (o! (_ BitVec 64))) (! (=> (< r! %s) %s) :pattern (%s))))", vc.heap0.alloc, sAnd(body...), t))
 	}
 }
 
